@@ -507,3 +507,107 @@ def coefficient_of(x, atom):
 def degree_in(x, atom):
     x = reduce_sqrt(Rat.lift(x))
     return max([dict(m).get(atom, 0) for m in x.num.terms] + [0])
+
+
+def key_to_rat(k):
+    """Inverse of Rat.key() / mono_key()."""
+    if k == ONE_KEY:
+        return Rat.const(1)
+    if isinstance(k, tuple) and k and k[0] == "mono":
+        return Rat(Poly({k[1]: Fraction(1)}))
+    if isinstance(k, tuple) and len(k) == 3 and k[0] == "rat":
+        return Rat(Poly(dict(k[1])), Poly(dict(k[2])))
+    raise AnalysisError(f"not a value key: {k!r}")
+
+
+def rewrite(x, f):
+    """Bottom-up rewriting of atoms, rebuilding bilinear / linear / function atoms from their rewritten arguments.
+    f(atom, args) is called with the already rewritten arguments (list of Rat for 'fn'; (a, b) for 'bil'; (fixed,
+    v) for 'lin') and returns a Rat, or None for the default reconstruction."""
+    memo = {}
+
+    def rw_atom(a):
+        if a in memo:
+            return memo[a]
+        tag = a[0]
+        if tag == "fn":
+            args = []
+            for k in a[2:]:
+                if isinstance(k, tuple) and k and k[0] == "rat":
+                    args.append(rw(key_to_rat(k)))
+                elif isinstance(k, tuple) and k and k[0] == "py":
+                    args.append(k[1])
+                elif isinstance(k, tuple) and k and k[0] == "tuple":
+                    args.append(tuple(rw(key_to_rat(z)) if z[0] == "rat" else z[1] for z in k[1:]))
+                else:
+                    raise AnalysisError(f"cannot decode key {k!r}")
+            r = f(a, args)
+            out = r if r is not None else fn(a[1], *args)
+        elif tag == "bil":
+            aa, bb = rw(key_to_rat(a[2])), rw(key_to_rat(a[3]))
+            r = f(a, (aa, bb))
+            out = r if r is not None else bilinear(a[1], aa, bb)
+        elif tag == "lin":
+            fixed = [rw(key_to_rat(k)) if (isinstance(k, tuple) and k and k[0] == "rat") else k for k in a[2]]
+            v = rw(key_to_rat(a[3]))
+            r = f(a, (fixed, v))
+            if r is not None:
+                out = r
+            else:
+                out = linear(a[1], [z.key() if isinstance(z, Rat) else z for z in fixed], v)
+        elif tag == "sqrt":
+            rad = rw(_SQRT_RADICANDS[a])
+            r = f(a, [rad])
+            out = r if r is not None else sqrt_of(rad)
+        elif tag in ("col", "row", "T"):
+            inner = rw_atom(a[1])
+            r = f(a, [inner])
+            if r is not None:
+                out = r
+            else:
+                out = wrap_axis(inner, tag) if tag != "T" else transpose(inner)
+        else:
+            r = f(a, [])
+            out = r if r is not None else Rat.atom(a)
+        memo[a] = out
+        return out
+
+    def rw(v):
+        return map_atoms(v, rw_atom)
+    return rw(Rat.lift(x))
+
+
+def all_atoms(x):
+    """Every atom occurring in x, including those nested inside keys."""
+    seen = set()
+
+    def visit_key(k):
+        if isinstance(k, tuple) and k and k[0] in ("rat", "mono"):
+            for a in key_to_rat(k).atoms():
+                visit(a)
+        elif isinstance(k, tuple) and k and k[0] == "tuple":
+            for z in k[1:]:
+                visit_key(z)
+
+    def visit(a):
+        if a in seen:
+            return
+        seen.add(a)
+        tag = a[0]
+        if tag == "fn":
+            for k in a[2:]:
+                visit_key(k)
+        elif tag == "bil":
+            visit_key(a[2])
+            visit_key(a[3])
+        elif tag == "lin":
+            for k in a[2]:
+                visit_key(k)
+            visit_key(a[3])
+        elif tag == "sqrt":
+            visit_key(a[1])
+        elif tag in ("col", "row", "T"):
+            visit(a[1])
+    for a in Rat.lift(x).atoms():
+        visit(a)
+    return seen
